@@ -119,6 +119,32 @@ def fam_chain(tier, rng):
     return out
 
 
+def fam_mixed(tier, rng):
+    """constants of every numeric type (through their suffix) holding equal / different values, combined by every operator:
+    the folded constant equals the expression over VARIABLES of the same types evaluated at run time"""
+    out = []
+    vals = [(7, 7), (7, 8), (-3, -3), (0, 0), (1, -1)]
+    ops = ["=", "<>", "<", "<=", ">", ">=", "+", "-", "*", "and", "or"]
+    for t1 in ("I", "L", "S", "D"):
+        for t2 in ("I", "L", "S", "D"):
+            if t1 == t2 and tier == "quick" and t1 != "I":
+                continue
+            for (v1, v2) in vals:
+                for op in ops:
+                    if tier == "quick" and op in ("<", ">=", "-", "*") and (v1, v2) not in ((7, 7), (7, 8)):
+                        continue
+                    b = B()
+                    main = [b.const("A", t1, num(v1)), b.const("B", t2, num(v2)), b.const("R", "", bin_(op, cref("A"), cref("B")), suffixed=False),
+                            b.print(cref("R")), b.print(lit("$", "t"), bin_("/", cref("R"), lit("I", 3)))]
+                    out.append({"fam": "mixed:const/%s%s" % (t1, t2), "prog": prog(main)})
+                    b = B()
+                    va, vb = var("VA", t1), var("VB", t2)
+                    e = bin_(op, va, vb)
+                    main = [b.let(va, num(v1)), b.let(vb, num(v2)), b.print(par(e)), b.print(lit("$", "t"), bin_("/", par(e), lit("I", 3)))]
+                    out.append({"fam": "mixed:runtime/%s%s" % (t1, t2), "prog": prog(main)})
+    return out
+
+
 def fam_length(tier, rng):
     """a constant as the length of a fixed-length string (DIM .. AS STRING * N, a TYPE member): the length is the value
     PRINT N shows - also when N was computed from a constant that its suffix converted"""
@@ -152,6 +178,17 @@ def fam_length(tier, rng):
         p = prog(main, types=[td])
         p["types_after"] = 2
         out.append({"fam": "length:%s/%d/%s" % (sfx or "bare", tenths, form), "prog": p})
+        # the same constants seen from a SUB: DIM .. AS STRING * N inside it, and a local constant as length
+        b = B()
+        d2 = b.dim("G", "$", fix=nval)
+        d2["fixtext"] = "N"
+        d3 = b.dim("H", "$", fix=nval + 1)
+        d3["fixtext"] = "M"
+        body = [d2, b.const("M", "", bin_("+", cref("N"), lit("I", 1)), suffixed=False), d3,
+                b.let(var("G", "$"), lit("$", "abcdefghijkl")), b.let(var("H", "$"), lit("$", "abcdefghijkl")),
+                b.print(cref("N"), cref("M"), var("G", "$"), lit("$", "|"), var("H", "$"), lit("$", "|"))]
+        main2 = [b.const("A", sfx, a_e, suffixed=bool(sfx)), b.const("N", "", n_e, suffixed=False), b.call("P", [])]
+        out.append({"fam": "length-sub:%s/%d/%s" % (sfx or "bare", tenths, form), "prog": prog(main2, [sub("P", [], body)])})
     return out
 
 
@@ -217,7 +254,7 @@ def fam_constarg(tier, rng):
     return out
 
 
-FAMILIES = [fam_const, fam_suffix, fam_chain, fam_shadow, fam_constarg, fam_length]
+FAMILIES = [fam_const, fam_suffix, fam_chain, fam_shadow, fam_constarg, fam_length, fam_mixed]
 
 
 def cases(tier, seed):
